@@ -18,6 +18,9 @@ T = {
  "C04": ("closed-loop differential monitoring: run(partial_run(S) + rest) vs run(all); taint check for random operators",
          "Exploration: for generated DAGs (optimised and not) and every subset of inputs, the values partial_run returns are fed back and the result compared with a single full run; models containing unseeded random operators are checked for random values leaking into partial_run results or being folded at load time.",
          "Random-operator reachability is computed by the generator."),
+ "C05": ("structure-aware mutation of valid ONNX and .rten models run through the real loader in forked batch children (panic capture, abort/signal/alarm capture, allocation-request monitor, ASan), plus a well-formedness monitor over every constant of every loaded model via the graph hook",
+         "Exploration: tens of thousands (quick) to millions (thorough) of mutants of generated ONNX models, the repo's .rten files and .rten files built with the schema builders (V1/V2, inline and offset constants) - extreme dims, short/long raw data, swapped types, extreme varints, header offsets around the file size and 2^64, dangling node indices, byte noise - each loaded through Model load (optimiser on/off, pre-packing), load_file and load_mmap. Every model that loads has all its constants (sub-graphs included) checked: checked 128-bit shape product vs reported length vs backing storage, all elements read (an out-of-bounds detector under ASan), constants re-requested through run(), and the model run once.",
+         "Allocation failure is simulated at 1 GiB; time-outs are wall-clock with confirmation; run-time behaviour of loaded models is not judged; mmap over-reads inside the last page are invisible."),
  "C06": ("address monitor + AddressSanitizer + Miri over random safe-API programs; constructor acceptance vs 128-bit arithmetic",
          "Exploration: adversarial constructor calls, view-operation chains and iterator histories run natively with every handed-out reference address-checked before use, and again under ASan and Miri (Stacked Borrows, bounds, uninitialised reads).",
          "Trusts the harness's u128 extent computation; ASan misses non-instrumented and far accesses, which the address monitor and Miri cover for the generic code paths."),
@@ -60,6 +63,9 @@ T = {
  "C19": ("differential monitoring against two references over structured (quick) / all 2^32 (thorough) bit patterns",
          "Exploration, exhaustive in thorough: Exp, Sigmoid, Tanh, Erf, Sin, Cos under each ISA checked with the in-tree tests' own error definition and bounds; a violation only when the bound fails against both the f32 and the f64 reference. Softmax non-negativity and sum.",
          "Sign of zero not compared; Sin/Cos bounded only on |x| <= 48000."),
+ "C21": ("invariant monitoring of the real loaders in forked children plus system-call monitoring (strace -f open/openat/openat2) of loading processes, with a harness-made positive control; ASan on the result monitor in thorough",
+         "Exploration: generated ONNX models with external initialisers (8 dtypes, shapes equal/smaller/larger than the range) loaded through load_file, load_mmap and external_data+load from a scratch tree (recognised/unrecognised/nested/backslash/unicode/255-byte/empty/symlinked names, secret.data one level up, cwd outside the model dir); ~150 hand-written locations, a component grammar over '/' and '\\', name mutations, random strings, an offset x length grid with 2^31/2^32/2^63/2^64-1, negative, non-numeric and u64-wrapping sums. Load Ok implies an acceptable single file name that exists in the model directory, a range inside the file (u128) and constant == file[offset..offset+length] read back two ways; anything else must be Err (panic/abort/signal/hang flagged); every successful open in a traced load must be <model dir>/<one acceptable component>.",
+         "Unix host only; symlink targets, extension-prefix names (w.database), NUL and non-UTF-8 locations are counted, not judged; a refusal of an acceptable case is never flagged."),
  "C22": ("concurrent stress against precomputed sequential results; plan-cache events and seeded yields through hooks; TSan and Miri in thorough",
          "Exploration: 2-8 threads share one model and issue run/partial_run requests with mutually different plan keys (forcing plan-cache replacement, also in nested subgraph caches) with seeded delays between plan hand-off and execution; every result compared bit-exactly with the same request executed alone. Evidence counts plan replacements that happened while another call was in flight and distinct event interleavings.",
          "Schedules are sampled, not enumerated; an unfinished group is inconclusive."),
